@@ -617,7 +617,7 @@ func TestVerif_C19_Envelope(t *testing.T) {
 	if tr, ok := http.DefaultTransport.(*http.Transport); ok {
 		tr.MaxIdleConnsPerHost = 64
 	}
-	n := m.N(6000, 200000)
+	n := m.N(6000, 1500000)
 	only := -1 // under `check.py --replay`: the recorded case only, no mandatory minimums
 	if v, ok := m.ReplayField("case").(float64); ok {
 		only = int(v)
